@@ -135,8 +135,9 @@ class Program:
                 except SyntaxError as e:
                     raise AnalysisError(f"{name}: syntax error {e}")
                 self.modules[name] = ModuleInfo(name, _normalise(tree), src)
-        from .inline import inline_unknown_helpers, propagate_attribute_aliases, unroll_literal_loops
+        from .inline import fold_unpack_temporaries, inline_unknown_helpers, propagate_attribute_aliases, unroll_literal_loops
 
+        self.folded_unpacks = fold_unpack_temporaries({name: m.tree for name, m in self.modules.items()})
         self.unrolled_loops = unroll_literal_loops({name: m.tree for name, m in self.modules.items()})
         self.inlined_calls = inline_unknown_helpers({name: m.tree for name, m in self.modules.items()})
         self.resolved_aliases = propagate_attribute_aliases({name: m.tree for name, m in self.modules.items()})
